@@ -482,22 +482,70 @@ func runClock(rc *RunCtx) {
 	simClock.onRead = nil
 	sample := &clockSample{Zone: zn, Start: simClock.now.Format(time.RFC3339Nano)}
 	n := 5 + wl.Intn(maxOps-4)
-	for i := 0; i < n && len(rc.viol) == 0; i++ {
-		switch r := wl.Intn(20); {
-		case r < 5:
-			w.opNow(wl)
-		case r < 8:
-			w.opDate(wl)
-		case r < 12:
-			w.opExtract(wl)
-		case r < 15:
-			w.opAddDate(wl)
-		case r < 17:
-			w.opUseTZ(wl)
-		case r < 19:
-			w.opFormat(wl)
-		default:
-			w.opChain(wl)
+	body := func(w *clockWorld, wl *Stream, n int, clockOps bool) {
+		for i := 0; i < n && len(rc.viol) == 0; i++ {
+			r := wl.Intn(20)
+			if !clockOps && r < 5 {
+				r = 5 + wl.Intn(15) // the simulated clock belongs to task 0
+			}
+			switch {
+			case r < 5:
+				w.opNow(wl)
+			case r < 8:
+				w.opDate(wl)
+			case r < 12:
+				w.opExtract(wl)
+			case r < 15:
+				w.opAddDate(wl)
+			case r < 17:
+				w.opUseTZ(wl)
+			case r < 19:
+				w.opFormat(wl)
+			default:
+				w.opChain(wl)
+			}
+		}
+	}
+	extra := 0
+	if pl.Intn(5) == 0 {
+		extra = 1 + pl.Intn(2)
+	}
+	worlds := []*clockWorld{w}
+	if extra == 0 {
+		body(w, wl, n, true)
+	} else {
+		// further callers with their own runners, interleaved at statement level; they share
+		// the process zone and the zone database, as concurrent callers of a real process do
+		streams := []*Stream{wl}
+		counts := []int{n}
+		for t := 1; t <= extra; t++ {
+			ws := rc.tape.Stream("workload-" + strconv.Itoa(t))
+			wt := &clockWorld{rc: rc, r: formula.NewRunner(), ctx: context.Background(), loc: loc, ticks: rc.tape.Stream("faults-" + strconv.Itoa(t))}
+			wt.r.SetThis(map[string]interface{}{})
+			worlds = append(worlds, wt)
+			streams = append(streams, ws)
+			counts = append(counts, 3+ws.Intn(maxOps/2))
+		}
+		strat := drawStrategy(pl, rc.tier, false)
+		rc.strats[strategyNames[strat.Kind]]++
+		sched := NewSched(len(worlds), strat, rc.tape.Stream("sched"), 400000)
+		tasks := make([]func(), len(worlds))
+		for t := range worlds {
+			t := t
+			tasks[t] = func() { body(worlds[t], streams[t], counts[t], t == 0) }
+		}
+		sched.Run(tasks)
+		rc.switches += sched.switches
+		rc.faults["preempt"] += sched.switches
+		rc.ev.add(sched.trace.h)
+		if sched.switches > 0 {
+			rc.probe("date_builtins_interleaved_at_statement_level")
+		}
+		for _, wt := range worlds[1:] {
+			w.ops = append(w.ops, "|| "+strings.Join(wt.ops, " ; "))
+			if wt.crossed {
+				w.crossed = true
+			}
 		}
 	}
 	if w.crossed {
